@@ -16,6 +16,9 @@ FAMILY = family("C01", [
              tiers=("thorough",), check=False, simulate=12000, sim_depth=700),
     ModelCfg("c01-n4o3e2", consts(4, 3, 2, OPS), tiers=("thorough",), check=False, simulate=10000,
              sim_depth=700),
+    # both iteration orders of the scopes' task / child-scope sets (Python sets), model check only
+    ModelCfg("c01-n3o3e1-orders", consts(3, 3, 1, '{"tgopen", "close", "spawn", "yield", "wait", "raise"}', orders="{FALSE, TRUE}"),
+             tiers=("thorough",)),
 ])
 
 
